@@ -1,3 +1,44 @@
-// Kani contracts for /repo/src/stdlib/abs.rs (child module via cfg(kani) hook).
+// Kani contracts for /repo/src/stdlib/abs.rs
 #![allow(warnings)]
 use super::*;
+use crate::compiler::kani_support::*;
+use ordered_float::NotNan;
+
+// @unit tier=q prop=C29 fn=abs
+#[kani::proof]
+#[kani::unwind(2)]
+#[kani::stub(alloc::fmt::format, stub_format)]
+#[kani::stub(regex::Regex::new, stub_regex_new)]
+fn k_abs_int() {
+    let i: i64 = kani::any();
+    let r = abs(Value::Integer(i));
+    let ok = match &r {
+        Ok(Value::Integer(x)) => {
+            if i == i64::MIN { *x == i64::MIN } else { *x >= 0 && (*x == i || *x == -i) }
+        }
+        _ => false,
+    };
+    assert!(ok, "C29.abs.int: abs(i) is the magnitude of i; it wraps (to itself) only at the minimum integer and never panics");
+    kani::cover!(i == i64::MIN, "C29.abs.cover_min");
+    core::mem::forget(r);
+}
+
+// @unit tier=q prop=C29 float=1 fn=abs
+#[kani::proof]
+#[kani::unwind(2)]
+#[kani::stub(alloc::fmt::format, stub_format)]
+#[kani::stub(regex::Regex::new, stub_regex_new)]
+fn k_abs_float() {
+    let f: f64 = kani::any();
+    kani::assume(!f.is_nan());
+    let r = abs(Value::Float(NotNan::new(f).unwrap()));
+    let ok = match &r {
+        Ok(Value::Float(x)) => {
+            let x = x.into_inner();
+            x >= 0.0 && (x == f || x == -f) && !x.is_sign_negative()
+        }
+        _ => false,
+    };
+    assert!(ok, "C29.abs.float: abs(f) is |f| (non-negative, same magnitude) for every non-NaN float");
+    core::mem::forget(r);
+}
